@@ -9,8 +9,8 @@ GL3  BackedRobinhoodTable::get_or_insert_by_hash returns a stored pointer only u
 GL4  callers use one key (and one hash) for the lookup and for the insertion that follows.
 GL5  LruIteTable::hash is a function of (f, g, h) only.
 """
-from . import mir
-from .base import inst, OK, VIOLATION, UNDECIDED, strip, gamma_arms
+from . import mir, canon
+from .base import inst, OK, VIOLATION, UNDECIDED, strip, gamma_arms, verdict_of, errtext
 from .facts import CheckerError
 from .mir import show
 
@@ -69,20 +69,25 @@ def gl1(prog):
     te = fn.terms
     out = []
     keyp = ("param", 2)
-    somes = [(bb, t, line) for bb, t, line in te.aggs if t[3] == "Some"]
+    # the Some(..) results: constructed under branch facts, or produced by Option combinators whose `filter`
+    # predicates play the role of the branch facts
+    somes = [(strip(t[4][0]), [c for c, val, _, d in te.facts_at(bb) if val != "0"], line)
+             for bb, t, line in te.aggs if t[3] == "Some"]
     if not somes:
-        raise CheckerError("Lru::get: no Some(..) construction found")
-    for bb, t, line in somes:
-        v = strip(t[4][0])
+        og = canon.option_outcomes_g(prog, te, te.ret)
+        somes = [(strip(p), [strip(g) for g in gs], None) for p, gs in (og or [])]
+    if not somes:
+        out.append(inst("GL", "%s:GL1:return-Some" % fn.npath, UNDECIDED, fn, None, "no Some(..) result recognised in Lru::get"))
+    for v, known, line in somes:
         errs = []
         if not (isinstance(v, tuple) and v[0] == "field" and v[2] == "val"):
             errs.append("returned value is not the `val` of a table entry: %s" % show(v))
         else:
             entry = v[1]
             ok = False
-            for c, val, _, d in te.facts_at(bb):
-                if is_eq(c, lambda x: x == ("field", entry, "key", v[3]) or (x[0] == "field" and x[1] == entry and x[2] == "key"),
-                         lambda x: x == keyp) and val != "0":
+            for c in known:
+                if is_eq(c, lambda x: isinstance(x, tuple) and x[0] == "field" and x[1] == entry and x[2] == "key",
+                         lambda x: x == keyp):
                     ok = True
             if not ok:
                 errs.append("Some(entry.val) is not control-dependent on the true edge of `entry.key == key` "
@@ -376,54 +381,56 @@ def gl6(prog):
 
 
 def hasher_feeds(te, h):
-    """h = finish(hasher): returns (starts from default?, [values fed in order])"""
-    h = strip(h)
-    if not mir.is_call(h, "finish"):
-        return None
-    x = strip(h[2][0])
-    fed = []
-    while isinstance(x, tuple) and x and x[0] == "mut":
-        site = x[1][0]
-        cs = te.calls_by_bb.get(site)
-        if cs is None or cs.callee.name != "hash":
-            return None
-        fed.append(strip(cs.args[0]))
-        x = strip(x[3])
-    if not mir.is_call(x, "default"):
-        return None
-    return list(reversed(fed))
+    return canon.hasher_feeds(te, h)
+
+
+def _key_feeds(prog, te, k):
+    """the values hashed into bucket key k: k is finish() of a hasher in this function, or the result of a local
+    helper that is"""
+    k = canon.inline_top(prog, te, k, ok=lambda h: h.name not in ("value", "semantic_hash", "negate"))
+    if isinstance(k, tuple) and k and k[0] == "hashof":
+        return [strip(f) for f in k[1]]
+    return None
 
 
 def gl7(prog):
     """GL7  the semantic builders file a node under FxHash(value(semantic hash)) and look it up under FxHash of
-    exactly one value: the hash itself, then its negation — each with a fresh hasher."""
+    exactly one value: the hash itself, and its negation — each with a fresh hasher."""
     out = []
     for self_adt in ("builder::decision_nnf::semantic::SemanticDecisionNNFBuilder", "builder::sdd::semantic::SemanticSddBuilder"):
         fn = prog.find1(name="check_cached_hash_and_neg", self_adt=self_adt, unit="rsdd-lib")
         te = fn.terms
+        # the lookups, wherever they are written: in the function itself or in closures handed to Option combinators
         keys = []
-        for cs in te.calls:
-            if cs.callee.name in ("get_by_hash", "get_shared_sdd_ptr"):
-                keys.append((cs, cs.args[-1]))
+        outs = canon.option_outcomes(prog, te, te.ret)
+        roots = [canon.resolve_hashers(te, o) for o in (outs or [])]
+        for r in roots:
+            for x in mir.subterms(r):
+                if x[0] == "call" and x[1].name in ("get_by_hash", "get_shared_sdd_ptr") and x[2] and \
+                        not any(show(x) == show(k[0]) for k in keys):
+                    keys.append((x, x[2][-1]))
         errs = []
         if len(keys) != 2:
-            errs.append("expected two lookups (plain and negated hash), found %d" % len(keys))
+            errs.append("%sexpected two lookups (plain and negated hash), found %d" % ("?" if outs is None else "", len(keys)))
+        kinds = []
         for i, (cs, k) in enumerate(keys):
-            fed = hasher_feeds(te, k)
+            fed = _key_feeds(prog, te, k)
             if fed is None:
-                errs.append("lookup %d: bucket key is not finish() of a hasher started from default()" % (i + 1))
+                errs.append("?lookup %d: bucket key is not finish() of a hasher started from default()" % (i + 1))
                 continue
-            want_neg = i == 1
-            ok = len(fed) == 1 and mir.is_call(fed[0], "value") and (
-                (strip(fed[0][2][0]) == ("param", 2)) if not want_neg else
-                (mir.is_call(strip(fed[0][2][0]), "negate") and strip(strip(fed[0][2][0])[2][0]) == ("param", 2)))
-            if not ok:
-                errs.append("the %s lookup hashes %s; it must hash exactly value(%s) with a fresh hasher, otherwise the key "
-                            "never equals the key a node was filed under (complements are not recognised, equal functions get "
-                            "two nodes)" % ("negated" if want_neg else "plain", [show(f)[:40] for f in fed],
-                                            "negate(hash)" if want_neg else "hash"))
-        out.append(inst("GL", "%s::check_cached_hash_and_neg:GL7:lookup-keys" % self_adt, VIOLATION if errs else OK, fn, None,
-                        "; ".join(errs) if errs else "lookups use FxHash(value(h)) and FxHash(value(negate(h))), each from a fresh hasher"))
+            v = strip(fed[0][2][0]) if len(fed) == 1 and mir.is_call(fed[0], "value") else None
+            if v == ("param", 2):
+                kinds.append("plain")
+            elif v is not None and mir.is_call(v, "negate") and strip(v[2][0]) == ("param", 2):
+                kinds.append("negated")
+            else:
+                errs.append("lookup %d hashes %s; it must hash exactly value(hash) or value(negate(hash)) with a fresh "
+                            "hasher, otherwise the key never equals the key a node was filed under (complements are not "
+                            "recognised, equal functions get two nodes)" % (i + 1, [show(f)[:40] for f in fed]))
+        if len(keys) == 2 and not errs and sorted(kinds) != ["negated", "plain"]:
+            errs.append("the two lookups are %s; one must use the hash and one its negation" % kinds)
+        out.append(inst("GL", "%s::check_cached_hash_and_neg:GL7:lookup-keys" % self_adt, verdict_of(errs), fn, None,
+                        errtext(errs) if errs else "lookups use FxHash(value(h)) and FxHash(value(negate(h))), each from a fresh hasher"))
     # interning side
     for self_adt, names in (("builder::decision_nnf::semantic::SemanticDecisionNNFBuilder", ("get_or_insert",)),
                             ("builder::sdd::semantic::SemanticSddBuilder", ("hash_bdd", "hash_sdd"))):
@@ -435,11 +442,12 @@ def gl7(prog):
                 k = ks[0] if ks else None
             else:
                 k = te.ret
-            fed = hasher_feeds(te, k) if k is not None else None
+            fed = _key_feeds(prog, te, k) if k is not None else None
             ok = fed is not None and len(fed) == 1 and mir.is_call(fed[0], "value") and mir.is_call(strip(fed[0][2][0]), "semantic_hash")
-            out.append(inst("GL", "%s::%s:GL7:intern-key" % (self_adt, nm), OK if ok else VIOLATION, fn, None,
-                            "node filed under FxHash(value(semantic_hash(node)))" if ok else
-                            "interning key is %s, not FxHash(value(semantic_hash(node)))" % ([show(f)[:40] for f in fed] if fed else "unrecognised")))
+            errs = [] if ok else ["%sinterning key is %s, not FxHash(value(semantic_hash(node)))"
+                                  % ("?" if fed is None else "", [show(f)[:40] for f in fed] if fed else "unrecognised")]
+            out.append(inst("GL", "%s::%s:GL7:intern-key" % (self_adt, nm), verdict_of(errs), fn, None,
+                            errtext(errs) if errs else "node filed under FxHash(value(semantic_hash(node)))"))
     return out
 
 
